@@ -25,6 +25,9 @@ def gen_cases(ctx):
         spec = c["spec"]
         spec["detectors"].append({"kind": "closed_poynting", "box": [[2, 5], [2, 5], [3, 6]], "name": "cs"})
         spec["init"] = None
+        if i % 3 == 1:      # dipole-only scene: a fully anisotropic block under the energy / field detectors (energy density with off-diagonal terms)
+            spec["blocks"] = [{"box": [[1, 6], [1, 6], [2, 7]], "eps": [2.0, 0.3, 0.1, 0.3, 2.5, 0.2, 0.1, 0.2, 3.0], "name": "aniso"}]
+            spec["mats"] = None
         cases.append({"kind": "cplx", "spec": spec})
     # a mode source on a conductive (lossy) slab waveguide: the solved mode profile is complex, so the TFSF injection combines an
     # in-phase and a quadrature carrier - the one place where forced complex storage could pick up an imaginary part
